@@ -349,7 +349,7 @@ macro_rules! wit_ins_con {
     ($ra:ident, $rx:ident, $i:ident) => {
         w!($rx.len == 0 || $rx.v.bit($rx.len - 1), "infix empty or top bit set");
         w!($ra.len == 0 || $ra.v.bit($ra.len - 1), "subject empty or top bit set");
-        w!($rx.v.is_zero() && !$ra.v.is_zero(), "zero infix, non-zero subject");
+        w!($rx.v.is_zero() && ($ra.len == 0 || !$ra.v.is_zero()), "zero infix, non-zero subject (unless the subject is empty)");
     };
 }
 
@@ -568,8 +568,7 @@ h_insert!(c07_q_insert_f8x2_bvd1, 8, f8x2(anylen(16)), nd::usize(), bvd1(anylen(
 h_insert!(c07_q_insert_f8x2_bvfix, 8, f8x2(anylen(16)), nd::usize(), bvfix(anylen(16)), 16, wit_ins_sym);
 h_insert!(c07_q_insert_f8x3_f8x2, 10, f8x3(anylen(24)), nd::usize(), f8x2(anylen(16)), 24, wit_ins_sym);
 h_insert!(c07_q_insert_f16x2_f8x3, 8, f16x2(anylen(32)), nd::usize(), f8x3(anylen(24)), 32, wit_ins_sym);
-h_insert!(c07_t_insert_f64x2_f8x3, 8, f64x2(anylen(128)), nd::usize(), f8x3(anylen(24)), 128, wit_ins_sym);
-h_insert!(c07_t_insert_f64x2_f64x2, 20, f64x2(anylen(128)), nd::usize(), f64x2(anylen(128)), 128, wit_ins_sym);
+h_insert!(c07_t_insert_f32x2_f8x2, 11, f32x2(anylen(64)), nd::usize(), f8x2(anylen(16)), 64, wit_ins_sym);
 h_insert!(c07_t_insert_f8x3_f16x2, 10, f8x3(anylen(24)), nd::usize(), f16x2(anylen(24)), 24, wit_ins_sym);
 h_insert!(c07_t_insert_f16x2_bvd1, 8, f16x2(anylen(32)), nd::usize(), bvd1(anylen(32)), 32, wit_ins_sym);
 h_insert!(c07_t_insert_f8x2_f64x2, 8, f8x2(anylen(16)), nd::usize(), f64x2(anylen(16)), 16, wit_ins_sym);
@@ -578,7 +577,7 @@ h_insert!(c07_t_insert_f8x3_bvdyn2, 10, f8x3(anylen(24)), nd::usize(), bvdyn2(an
 h_extend_bits!(c07_q_extend_f8x2_k0, 3, f8x2(anylen(16)), 0, 16, wit_sym1);
 h_extend_bits!(c07_q_extend_f8x2_k1, 4, f8x2(anylen(16)), 1, 16, wit_sym1);
 h_extend_bits!(c07_q_extend_f8x2_k5, 8, f8x2(anylen(16)), 5, 16, wit_sym1);
-h_extend_bits!(c07_q_extend_f8x2_k8, 11, f8x2(anylen(16)), 8, 16, wit_sym1);
+h_extend_bits!(c07_q_extend_f8x2_k7, 10, f8x2(anylen(16)), 7, 16, wit_sym1);
 h_extend_bits!(c07_q_extend_f8x3_k8, 11, f8x3(anylen(24)), 8, 24, wit_sym1);
 h_extend_bits!(c07_q_extend_f16x2_k3, 6, f16x2(anylen(32)), 3, 32, wit_sym1);
 h_extend_bits!(c07_q_extend_f64x2_k8, 11, f64x2(anylen(128)), 8, 128, wit_sym1);
@@ -793,18 +792,18 @@ h_append!(c07_q_append_bvd3n1_bvd3n191, 12, bvd3(1), bvd3(191), 256, wit_con2);
 h_append!(c07_q_append_bvd1n63_f16x2n17, 12, bvd1(63), f16x2(17), 256, wit_con2);
 h_append!(c07_q_append_bvd3n128_f64x1n64, 12, bvd3(128), f64x1(64), 256, wit_con2);
 h_append!(c07_q_append_bvd1n1_bvd1n63, 12, bvd1(1), bvd1(63), 256, wit_con2);
-h_append!(c07_q_append_bvfixn120_f8x2n16, 12, bvfix(120), f8x2(16), 256, wit_con2);
-h_append!(c07_q_append_bvfixn100_f8x2n16, 12, bvfix(100), f8x2(16), 256, wit_con2);
-h_append!(c07_t_append_bvfixn128_f8x1n1, 12, bvfix(128), f8x1(1), 256, wit_con2);
-h_append!(c07_q_append_bvfixn128_bvfixn0, 12, bvfix(128), bvfix(0), 256, wit_con2);
-h_append!(c07_q_append_bvfixn0_bvdyn3n129, 12, bvfix(0), bvdyn3(129), 256, wit_con2);
-h_append!(c07_q_append_bvfixn64_bvfixn64, 12, bvfix(64), bvfix(64), 256, wit_con2);
-h_append!(c07_q_append_bvfixn64_f64x2n65, 12, bvfix(64), f64x2(65), 256, wit_con2);
-h_append!(c07_q_append_bvfixn0_f8x1n0, 12, bvfix(0), f8x1(0), 256, wit_con2);
+h_append!(c07_q_append_bvfixn120_f8x2n16, 20, bvfix(120), f8x2(16), 256, wit_con2);
+h_append!(c07_q_append_bvfixn100_f8x2n16, 20, bvfix(100), f8x2(16), 256, wit_con2);
+h_append!(c07_t_append_bvfixn128_f8x1n1, 20, bvfix(128), f8x1(1), 256, wit_con2);
+h_append!(c07_q_append_bvfixn128_bvfixn0, 20, bvfix(128), bvfix(0), 256, wit_con2);
+h_append!(c07_q_append_bvfixn0_bvdyn3n129, 20, bvfix(0), bvdyn3(129), 256, wit_con2);
+h_append!(c07_q_append_bvfixn64_bvfixn64, 20, bvfix(64), bvfix(64), 256, wit_con2);
+h_append!(c07_q_append_bvfixn64_f64x2n65, 20, bvfix(64), f64x2(65), 256, wit_con2);
+h_append!(c07_q_append_bvfixn0_f8x1n0, 20, bvfix(0), f8x1(0), 256, wit_con2);
 h_append!(c07_q_append_bvdyn2n100_bvfixn28, 12, bvdyn2(100), bvfix(28), 256, wit_con2);
 h_append!(c07_q_append_bvdyn3n128_bvd1n64, 12, bvdyn3(128), bvd1(64), 256, wit_con2);
 h_append!(c07_q_append_bvdyn3n129_f8x3n24, 12, bvdyn3(129), f8x3(24), 256, wit_con2);
-h_append!(c07_q_append_bvfixn127_bvd1n2, 12, bvfix(127), bvd1(2), 256, wit_con2);
+h_append!(c07_q_append_bvfixn127_bvd1n2, 20, bvfix(127), bvd1(2), 256, wit_con2);
 h_append!(c07_t_append_bvd1n0_f8x2n0, 12, bvd1(0), f8x2(0), 256, wit_con2);
 h_append!(c07_t_append_bvd1n0_f8x1n1, 12, bvd1(0), f8x1(1), 256, wit_con2);
 h_append!(c07_t_append_bvd1n0_f8x2n7, 12, bvd1(0), f8x2(7), 256, wit_con2);
@@ -868,13 +867,13 @@ h_append!(c07_t_append_bvd2n128_bvd1n63, 12, bvd2(128), bvd1(63), 256, wit_con2)
 h_append!(c07_t_append_bvd2n128_f64x1n64, 12, bvd2(128), f64x1(64), 256, wit_con2);
 h_append!(c07_t_append_bvd2n128_bvfixn65, 12, bvd2(128), bvfix(65), 256, wit_con2);
 h_append!(c07_t_append_bvd2n128_f64x2n128, 12, bvd2(128), f64x2(128), 256, wit_con2);
-h_append!(c07_t_append_bvfixn1_f64x2n127, 12, bvfix(1), f64x2(127), 256, wit_con2);
-h_append!(c07_t_append_bvfixn1_f64x2n128, 12, bvfix(1), f64x2(128), 256, wit_con2);
-h_append!(c07_t_append_bvfixn121_f8x1n7, 12, bvfix(121), f8x1(7), 256, wit_con2);
-h_append!(c07_t_append_bvfixn121_f8x1n8, 12, bvfix(121), f8x1(8), 256, wit_con2);
-h_append!(c07_t_append_bvfixn64_bvd1n64, 12, bvfix(64), bvd1(64), 256, wit_con2);
-h_append!(c07_t_append_bvfixn65_bvd1n64, 12, bvfix(65), bvd1(64), 256, wit_con2);
-h_append!(c07_t_append_bvfixn128_f64x3n64, 12, bvfix(128), f64x3(64), 256, wit_con2);
+h_append!(c07_t_append_bvfixn1_f64x2n127, 20, bvfix(1), f64x2(127), 256, wit_con2);
+h_append!(c07_t_append_bvfixn1_f64x2n128, 20, bvfix(1), f64x2(128), 256, wit_con2);
+h_append!(c07_t_append_bvfixn121_f8x1n7, 20, bvfix(121), f8x1(7), 256, wit_con2);
+h_append!(c07_t_append_bvfixn121_f8x1n8, 20, bvfix(121), f8x1(8), 256, wit_con2);
+h_append!(c07_t_append_bvfixn64_bvd1n64, 20, bvfix(64), bvd1(64), 256, wit_con2);
+h_append!(c07_t_append_bvfixn65_bvd1n64, 20, bvfix(65), bvd1(64), 256, wit_con2);
+h_append!(c07_t_append_bvfixn128_f64x3n64, 20, bvfix(128), f64x3(64), 256, wit_con2);
 
 h_prepend!(c07_q_prepend_bvd1n60_f8x2n10, 12, bvd1(60), f8x2(10), 256, wit_con2);
 h_prepend!(c07_q_prepend_bvd1n64_bvd2n100, 12, bvd1(64), bvd2(100), 256, wit_con2);
@@ -888,13 +887,13 @@ h_prepend!(c07_q_prepend_bvd2n128_f8x1n1, 12, bvd2(128), f8x1(1), 256, wit_con2)
 h_prepend!(c07_q_prepend_bvd2n127_bvdyn2n65, 12, bvd2(127), bvdyn2(65), 256, wit_con2);
 h_prepend!(c07_q_prepend_bvd1n63_f16x2n17, 12, bvd1(63), f16x2(17), 256, wit_con2);
 h_prepend!(c07_q_prepend_bvd3n100_f64x1n64, 12, bvd3(100), f64x1(64), 256, wit_con2);
-h_prepend!(c07_q_prepend_bvfixn120_f8x2n16, 12, bvfix(120), f8x2(16), 256, wit_con2);
-h_prepend!(c07_q_prepend_bvfixn100_f8x2n16, 12, bvfix(100), f8x2(16), 256, wit_con2);
-h_prepend!(c07_q_prepend_bvfixn128_f8x1n1, 12, bvfix(128), f8x1(1), 256, wit_con2);
-h_prepend!(c07_q_prepend_bvfixn5_bvdyn3n130, 12, bvfix(5), bvdyn3(130), 256, wit_con2);
-h_prepend!(c07_q_prepend_bvfixn0_f8x2n0, 12, bvfix(0), f8x2(0), 256, wit_con2);
-h_prepend!(c07_q_prepend_bvfixn128_bvd1n0, 12, bvfix(128), bvd1(0), 256, wit_con2);
-h_prepend!(c07_q_prepend_bvfixn64_bvfixn64, 12, bvfix(64), bvfix(64), 256, wit_con2);
+h_prepend!(c07_q_prepend_bvfixn120_f8x2n16, 20, bvfix(120), f8x2(16), 256, wit_con2);
+h_prepend!(c07_q_prepend_bvfixn100_f8x2n16, 20, bvfix(100), f8x2(16), 256, wit_con2);
+h_prepend!(c07_q_prepend_bvfixn128_f8x1n1, 20, bvfix(128), f8x1(1), 256, wit_con2);
+h_prepend!(c07_q_prepend_bvfixn5_bvdyn3n130, 20, bvfix(5), bvdyn3(130), 256, wit_con2);
+h_prepend!(c07_q_prepend_bvfixn0_f8x2n0, 20, bvfix(0), f8x2(0), 256, wit_con2);
+h_prepend!(c07_q_prepend_bvfixn128_bvd1n0, 20, bvfix(128), bvd1(0), 256, wit_con2);
+h_prepend!(c07_q_prepend_bvfixn64_bvfixn64, 20, bvfix(64), bvfix(64), 256, wit_con2);
 h_prepend!(c07_t_prepend_bvd1n0_f8x1n1, 12, bvd1(0), f8x1(1), 256, wit_con2);
 h_prepend!(c07_t_prepend_bvd1n0_f8x2n7, 12, bvd1(0), f8x2(7), 256, wit_con2);
 h_prepend!(c07_t_prepend_bvd1n0_f8x2n8, 12, bvd1(0), f8x2(8), 256, wit_con2);
@@ -935,11 +934,11 @@ h_prepend!(c07_t_prepend_bvd2n128_bvd1n63, 12, bvd2(128), bvd1(63), 256, wit_con
 h_prepend!(c07_t_prepend_bvd2n128_f64x1n64, 12, bvd2(128), f64x1(64), 256, wit_con2);
 h_prepend!(c07_t_prepend_bvd2n128_bvfixn65, 12, bvd2(128), bvfix(65), 256, wit_con2);
 h_prepend!(c07_t_prepend_bvd2n128_f64x2n128, 12, bvd2(128), f64x2(128), 256, wit_con2);
-h_prepend!(c07_t_prepend_bvfixn1_f64x2n127, 12, bvfix(1), f64x2(127), 256, wit_con2);
-h_prepend!(c07_t_prepend_bvfixn1_f64x2n128, 12, bvfix(1), f64x2(128), 256, wit_con2);
-h_prepend!(c07_t_prepend_bvfixn121_f8x1n7, 12, bvfix(121), f8x1(7), 256, wit_con2);
-h_prepend!(c07_t_prepend_bvfixn121_f8x1n8, 12, bvfix(121), f8x1(8), 256, wit_con2);
-h_prepend!(c07_t_prepend_bvfixn65_bvd1n64, 12, bvfix(65), bvd1(64), 256, wit_con2);
+h_prepend!(c07_t_prepend_bvfixn1_f64x2n127, 20, bvfix(1), f64x2(127), 256, wit_con2);
+h_prepend!(c07_t_prepend_bvfixn1_f64x2n128, 20, bvfix(1), f64x2(128), 256, wit_con2);
+h_prepend!(c07_t_prepend_bvfixn121_f8x1n7, 20, bvfix(121), f8x1(7), 256, wit_con2);
+h_prepend!(c07_t_prepend_bvfixn121_f8x1n8, 20, bvfix(121), f8x1(8), 256, wit_con2);
+h_prepend!(c07_t_prepend_bvfixn65_bvd1n64, 20, bvfix(65), bvd1(64), 256, wit_con2);
 
 h_insert!(c07_q_insert_bvd1n60_i30_f8x2n10, 12, bvd1(60), 30, f8x2(10), 256, wit_ins_con);
 h_insert!(c07_q_insert_bvd1n64_i0_bvd1n64, 12, bvd1(64), 0, bvd1(64), 256, wit_ins_con);
@@ -948,16 +947,22 @@ h_insert!(c07_q_insert_bvd2n100_i100_f8x3n24, 12, bvd2(100), 100, f8x3(24), 256,
 h_insert!(c07_q_insert_bvd2n70_i65_bvfixn0, 12, bvd2(70), 65, bvfix(0), 256, wit_ins_con);
 h_insert!(c07_q_insert_bvd3n130_i1_f16x2n31, 12, bvd3(130), 1, f16x2(31), 256, wit_ins_con);
 h_insert!(c07_q_insert_bvd1n0_i0_f8x2n9, 12, bvd1(0), 0, f8x2(9), 256, wit_ins_con);
-h_insert!(c07_q_insert_bvfixn120_i60_f8x2n16, 12, bvfix(120), 60, f8x2(16), 256, wit_ins_con);
-h_insert!(c07_q_insert_bvfixn100_i37_f8x1n3, 12, bvfix(100), 37, f8x1(3), 256, wit_ins_con);
-h_insert!(c07_t_insert_bvfixn100_i37_f8x2n16, 12, bvfix(100), 37, f8x2(16), 256, wit_ins_con);
-h_insert!(c07_q_insert_bvfixn128_i128_f8x1n1, 12, bvfix(128), 128, f8x1(1), 256, wit_ins_con);
-h_insert!(c07_q_insert_bvfixn128_i0_f8x1n1, 12, bvfix(128), 0, f8x1(1), 256, wit_ins_con);
+h_insert!(c07_q_insert_bvfixn120_i60_f8x2n16, 20, bvfix(120), 60, f8x2(16), 256, wit_ins_con);
+h_insert!(c07_q_insert_bvfixn100_i37_f8x1n3, 20, bvfix(100), 37, f8x1(3), 256, wit_ins_con);
+h_insert!(c07_t_insert_bvfixn100_i37_f8x2n16, 20, bvfix(100), 37, f8x2(16), 256, wit_ins_con);
+h_insert!(c07_q_insert_bvfixn128_i128_f8x1n1, 20, bvfix(128), 128, f8x1(1), 256, wit_ins_con);
+h_insert!(c07_q_insert_bvfixn128_i0_f8x1n1, 20, bvfix(128), 0, f8x1(1), 256, wit_ins_con);
 h_insert!(c07_q_insert_bvdyn2n100_i100_f8x2n0, 12, bvdyn2(100), 100, f8x2(0), 256, wit_ins_con);
 h_insert!(c07_t_insert_bvd2n128_i127_bvd1n64, 12, bvd2(128), 127, bvd1(64), 256, wit_ins_con);
 h_insert!(c07_t_insert_bvd1n64_i64_f64x2n128, 12, bvd1(64), 64, f64x2(128), 256, wit_ins_con);
-h_insert!(c07_t_insert_bvfixn64_i64_bvdyn3n129, 12, bvfix(64), 64, bvdyn3(129), 256, wit_ins_con);
-h_insert!(c07_t_insert_bvfixn128_i64_bvfixn0, 12, bvfix(128), 64, bvfix(0), 256, wit_ins_con);
+h_insert!(c07_t_insert_bvfixn64_i64_bvdyn3n129, 20, bvfix(64), 64, bvdyn3(129), 256, wit_ins_con);
+h_insert!(c07_t_insert_bvfixn128_i64_bvfixn0, 20, bvfix(128), 64, bvfix(0), 256, wit_ins_con);
+h_insert!(c07_q_insert_f64x2n100_i37_f8x2n16, 20, f64x2(100), 37, f8x2(16), 128, wit_ins_con);
+h_insert!(c07_q_insert_f64x2n64_i64_f64x1n64, 20, f64x2(64), 64, f64x1(64), 128, wit_ins_con);
+h_insert!(c07_t_insert_f64x2n112_i64_f8x2n16, 20, f64x2(112), 64, f8x2(16), 128, wit_ins_con);
+h_insert!(c07_t_insert_f64x2n127_i1_f8x1n1, 20, f64x2(127), 1, f8x1(1), 128, wit_ins_con);
+h_insert!(c07_t_insert_f64x2n0_i0_f64x2n128, 20, f64x2(0), 0, f64x2(128), 128, wit_ins_con);
+h_insert!(c07_t_insert_f64x2n65_i64_bvd1n63, 20, f64x2(65), 64, bvd1(63), 128, wit_ins_con);
 
 h_extend_bits!(c07_q_extend_bvd1n62_k4, 8, bvd1(62), 4, 256, wit_con1);
 h_extend_bits!(c07_q_extend_bvd1n0_k0, 4, bvd1(0), 0, 256, wit_con1);
